@@ -7,6 +7,8 @@ CONSTANTS
   Names = {"n1", "n2"}
   MaxRefs = 1
   Emit = TRUE
+  AliasMods = {"e", "a", "b"}
+  NsAlias = FALSE
   ModRefs = TRUE
 INVARIANT Agree
 INVARIANT Closed
